@@ -32,6 +32,18 @@ Example c11_full_buffer_was_fatal :
   handed_over_conn_survives false 63 = true /\ handed_over_conn_survives false 65 = true.
 Proof. exact without_room_64_fatal. Qed.
 
+(* OnAccept publishes the accept buffer of a handed-over connection whatever its length (read from handler.go on this run),
+   so every handed-over connection - with ANY number of buffered bytes, zero included - gets its read buffer, is started by
+   the new process and survives; published only when non-empty, the IDLE connection is never started *)
+Theorem c11_transfer_buffer_always_published : transfer_buffer_always_published = true.
+Proof. exact (eq_refl true). Qed.
+Theorem c11_handed_over_conn_served : forall buffered,
+  handed_over_conn_served transfer_buffer_has_room transfer_buffer_always_published buffered = true.
+Proof. exact served_when_published. Qed.
+Example c11_unpublished_idle_never_served :
+  handed_over_conn_served true false 0 = false /\ handed_over_conn_served true false 1 = true.
+Proof. exact unpublished_idle_never_served. Qed.
+
 (* ---- listener ---- *)
 (* every state reachable from a fresh listener is well-formed (an accept loop runs only in state Running) *)
 Theorem c11_listener_wf : forall bind inherited ops, l_wf (l_run (l_init bind inherited) ops).
@@ -254,6 +266,17 @@ Theorem c11_handover_stream : forall (F : Type) (parse : bytes -> presult F), st
 Proof. intros F parse St. exact (handover_stream parse St). Qed.
 Print Assumptions c11_handover_stream.
 
+(* the instance "nothing buffered": a connection that is IDLE at hand-over is started from the empty buffer by the new
+   process, which then extracts exactly the frames one process would have *)
+Theorem c11_handover_idle : forall (F : Type) (parse : bytes -> presult F), stable parse ->
+  forall b tls, (blen tls < 4294967296)%N ->
+  exists nw, handover (feed parse (@init F) []) tls = Some (nw, tls) /\ buf nw = [] /\
+    out (feed parse (@init F) b) = out (feed parse nw b) /\
+    buf (feed parse (@init F) b) = buf (feed parse nw b) /\
+    dead (feed parse (@init F) b) = dead (feed parse nw b) /\
+    stuck (feed parse nw b) = false.
+Proof. intros F parse St. exact (handover_idle parse St). Qed.
+
 (* the framing of bolt requests (22-byte header carrying the three lengths) is prefix-stable, so the theorem applies to the
    connections the harness hands over at every byte offset *)
 Theorem c11_bolt_request_framing_stable : stable bolt_req_parse.
@@ -283,6 +306,14 @@ Proof. exact wire_complete. Qed.
 Example c11_socket_before_lock_refuted :
   h_wire (h_run false [1;2;3;4]%N 1 [9]%N [ATransfer; ANew; AOld; AOld; AOld; ATransfer]) = [1;9;2;3;4]%N /\
   h_wire (h_run true [1;2;3;4]%N 1 [9]%N [ATransfer; ANew; AOld; AOld; AOld; ATransfer; ATransfer; ANew]) = [1;2;3;4;9]%N.
+Proof. vm_compute. split; reflexivity. Qed.
+
+(* the idle connection: hand-over with nothing buffered, then two frames arrive at the new process *)
+Example c11_handover_idle_example :
+  match handover (feed lp_parse init []) [] with
+  | Some (nw, _) => buf nw = [] /\ out (feed lp_parse nw [2; 7; 8; 1; 9]%N) = [EFrame [7; 8]%N; EFrame [9]%N]
+  | None => False
+  end.
 Proof. vm_compute. split; reflexivity. Qed.
 
 (* non-vacuity: length-prefixed frames, handover in the middle of the first frame *)
